@@ -9,7 +9,8 @@ UserHas(ob, k) == ob.abs.user.t = "obj" /\ ObjHas(ob.abs.user.es, k)
 IsVue(ob) == ob.abs.prov = "vue_named"
 MaybeVue(ob) == ob.abs.prov = "vue_alias"                    \* imported from 'vue' under another name: the property is silent
 FnFirst(ob) == ob.abs.shape # "nonfn_first"
-Augmentable(ob) == ob.abs.opts.resolveType /\ FnFirst(ob) /\ ob.abs.shape # "spread_args"
+ArgsSpread(ob) == ob.abs.shape \in {"spread_args", "spread_args_one"}
+Augmentable(ob) == ob.abs.opts.resolveType /\ FnFirst(ob) /\ ~ArgsSpread(ob)
 VarDecl(ob) == ob.abs.decl \in {"const", "let", "var", "export_const"}
 
 Derived(ob, k, v) ==
@@ -20,7 +21,7 @@ Derived(ob, k, v) ==
 WhyKey(ob, k) ==
   LET has == HasOption(ob, k)
       v == ObjGet(Eff(ob), k)
-      canDerive == IF k = "name" THEN ob.abs.opts.resolveType /\ VarDecl(ob) /\ ob.abs.shape # "spread_args" ELSE Augmentable(ob)
+      canDerive == IF k = "name" THEN ob.abs.opts.resolveType /\ VarDecl(ob) /\ ~ArgsSpread(ob) ELSE Augmentable(ob)
   IN
   IF UserHas(ob, k) THEN
        (IF ~has THEN "user-option-lost:" \o k
